@@ -128,15 +128,17 @@ private:
 class SimIStreamBuf : public std::streambuf
 {
 public:
-    SimIStreamBuf(const Bytes &data, size_t start, size_t limit, size_t chunk, long throw_refill = 0)
+    SimIStreamBuf(const Bytes &data, size_t start, size_t limit, size_t chunk, long throw_refill = 0, bool seekable = false)
         : m_data(data)
         , m_pos(start)
         , m_limit(std::min(limit, data.size()))
         , m_buf(chunk ? chunk : 1)
         , m_throw(throw_refill)
+        , m_seekable(seekable)
     {
         setg((char *)m_buf.data(), (char *)m_buf.data(), (char *)m_buf.data());
     }
+    size_t seeks = 0; // positioning calls the reader made (tellg / seekg)
     size_t refills = 0;
     size_t refill_budget = 0; // 0 = unlimited
     bool fault_fired = false; // eof reached or refill threw
@@ -172,11 +174,34 @@ protected:
         return traits_type::to_int_type(*gptr());
     }
 
+    // A file can be positioned, a pipe cannot: per-run knob. Positions are absolute
+    // offsets in the file (which may hold unrelated bytes before and after the field).
+    pos_type seekoff(off_type off, std::ios_base::seekdir dir, std::ios_base::openmode which) override
+    {
+        ++seeks;
+        if (!m_seekable || !(which & std::ios_base::in))
+            return pos_type(off_type(-1));
+        off_type cur = (off_type)m_pos - (off_type)(egptr() - gptr());
+        off_type target = dir == std::ios_base::beg ? off : (dir == std::ios_base::cur ? cur + off : (off_type)m_limit + off);
+        if (target < 0 || target > (off_type)m_limit)
+            return pos_type(off_type(-1));
+        if (target != cur) {
+            m_pos = (size_t)target;
+            setg((char *)m_buf.data(), (char *)m_buf.data(), (char *)m_buf.data());
+        }
+        return pos_type(target);
+    }
+    pos_type seekpos(pos_type pos, std::ios_base::openmode which) override
+    {
+        return seekoff(off_type(pos), std::ios_base::beg, which);
+    }
+
 private:
     const Bytes &m_data;
     size_t m_pos, m_limit;
     Bytes m_buf;
     long m_throw;
+    bool m_seekable;
 };
 
 }
